@@ -778,6 +778,9 @@ pub fn host_focus_universe() -> Vec<RuleSpec> {
         mk("h5", "literal host cat.example", Some("cat.example"), None, "/a"),
         mk("h6", "any host", None, None, "/a"),
         mk("h7", "dyn host @h.example #3 other path", Some("@h.example"), Some(("h", "(cat|dog)")), "/b"),
+        // a second rule on the LONGER host pattern: the tree then has to find an existing leaf whose pattern has a
+        // sibling leaf (h1/h2/h7's pattern) as textual prefix
+        mk("h8", "dyn host @h.example.org #2 (same bucket as the extending regex)", Some("@h.example.org"), Some(("h", "(cat|dog)")), "/b"),
     ];
     for (i, r) in v.iter_mut().enumerate() {
         r.rank = (i + 1) as u16;
